@@ -500,6 +500,69 @@ pub fn print_texts(mode: Mode, run: &mut Run) -> Stats {
     st
 }
 
+/// Deep stacks: one of the four stacks holds d elements (d around 2^8 and 2^16, where a narrow counter or
+/// index type would wrap), roomy and exactly full; every instruction of the full set.
+pub fn deep_stacks(mode: Mode, run: &mut Run) -> Stats {
+    let quick = run.quick();
+    let depths: Vec<usize> = if quick { vec![255, 256, 257, 65_535, 65_536, 65_537] } else { vec![127, 128, 129, 255, 256, 257, 1000, 32_767, 32_768, 65_535, 65_536, 65_537, 70_001] };
+    let alpha = instruction_alphabet(false);
+    let names: std::sync::Arc<Vec<String>> = std::sync::Arc::new(alpha.instrs.iter().map(|(n, _)| n.clone()).collect());
+    let mut shards: Vec<(usize, usize, bool)> = vec![];
+    for d in &depths {
+        for which in 0..4 {
+            for tight in [false, true] {
+                shards.push((*d, which, tight));
+            }
+        }
+    }
+    let results = mcx::par_map(shards.len(), |k| {
+        let (d, which, tight) = shards[k];
+        let mut st = Stats::default();
+        let mut viols: Vec<(String, String, Value)> = vec![];
+        let mut caps = [d + 8; 4];
+        if tight {
+            caps[which] = d;
+        }
+        let mut base = RState::empty(caps);
+        base.inputs = default_inputs();
+        base.int = vec![3, -2];
+        base.float = vec![1.5, -0.5];
+        base.boolean = vec![true, false];
+        base.exec = vec![PushProgram::Instruction(PushInstruction::push_int(1))];
+        match which {
+            EXEC => base.exec = (0..d).map(|i| if i % 5 == 4 { PushProgram::Block(vec![]) } else { PushProgram::Instruction(PushInstruction::push_int(i as i64)) }).collect(),
+            INT => base.int = (0..d as i64).map(|i| i % 7 - 3).collect(),
+            FLOAT => base.float = (0..d).map(|i| (i % 5) as f64 - 1.5).collect(),
+            _ => base.boolean = (0..d).map(|i| i % 3 == 0).collect(),
+        }
+        let real = make_real(&base, 100);
+        st.states += 1;
+        announce(mode, &base, names.clone());
+        for (ix, (name, instr)) in alpha.instrs.iter().enumerate() {
+            mcx::watch::step(ix);
+            let (v, _) = check_perform(mode, &real, &base, instr, name, &mut st);
+            if let Some((key, what)) = v {
+                if viols.len() < 6 {
+                    // the states are large: the message names the shape, the replay rebuilds it
+                    let what: String = format!("{} stack of {d} elements ({}): {}", ["exec", "int", "float", "bool"][which], if tight { "exactly full" } else { "roomy" }, what.chars().take(300).collect::<String>());
+                    viols.push((format!("{key}/deep"), what, json!({"check": format!("{mode:?}"), "kind": "deep", "d": d, "which": which, "tight": tight, "instruction": name})));
+                }
+            }
+        }
+        mcx::watch::leave();
+        (st, viols)
+    });
+    let mut total = Stats::default();
+    for (st, viols) in results {
+        total.merge(&st);
+        for (k, w, r) in viols {
+            run.violation(k, w, r);
+        }
+    }
+    run.bound("f.deep_stack_depths", json!(depths));
+    total
+}
+
 /// Performing a *block* (the interpreter does this for every nested block): its items go onto the exec
 /// stack, first item on top, all or nothing.  Every exec capacity 0..=5 x fill level x block length 0..=5.
 pub fn block_performs(mode: Mode, run: &mut Run) -> Stats {
@@ -854,6 +917,18 @@ pub fn replay(mode: Mode, v: &Value) -> bool {
                 }
             }
         }
+        Some("deep") => {
+            let mut r = Run::new(&format!("{mode:?}"), "quick");
+            deep_stacks(mode, &mut r);
+            let g = r.violations.lock().unwrap();
+            for (k, x) in g.iter() {
+                println!("MISMATCH [{k}]: {}", x.what);
+            }
+            if g.is_empty() {
+                println!("replay: property held");
+            }
+            g.is_empty()
+        }
         Some("block") => {
             let mut r = Run::new(&format!("{mode:?}"), "quick");
             block_performs(mode, &mut r);
@@ -908,6 +983,8 @@ pub fn run(mode: Mode, run: &mut Run) {
     {
         let e = block_performs(mode, run);
         d.merge(&e);
+        let e = deep_stacks(mode, run);
+        d.merge(&e);
     }
     let mut rows = b.rows.clone();
     for (k, v) in a.rows.iter().chain(d.rows.iter()) {
@@ -958,7 +1035,7 @@ pub fn run(mode: Mode, run: &mut Run) {
     run.distinct_nontrivial = nontrivial;
     run.note("rows", json!(rows.iter().map(|(k, v)| (k.clone(), json!({"ok": v[0], "skip": v[1], "fatal": v[2]}))).collect::<serde_json::Map<_, _>>()));
     run.rule = match mode {
-        Mode::C01 => "every instruction applied (real Instruction::perform / State::perform) in every state of the boundary family x 10 capacity patterns and in every state of a stateright BFS over instruction sequences; every genome over the gene alphabet up to the length bound run by the real run_to_completion under every step limit and capacity; each result compared with the set PushRef admits; PrintChar<C> for 18 characters of every UTF-8 length performed directly and PrintString with non-ASCII text. distinct_nontrivial = (instruction, outcome kind) pairs reached".into(),
+        Mode::C01 => "every instruction applied (real Instruction::perform / State::perform) in every state of the boundary family x 10 capacity patterns and in every state of a stateright BFS over instruction sequences; every genome over the gene alphabet up to the length bound run by the real run_to_completion under every step limit and capacity; each result compared with the set PushRef admits; PrintChar<C> for 18 characters of every UTF-8 length performed directly and PrintString with non-ASCII text; blocks performed directly; every instruction on stacks of 255..257 and 65535..65537 elements (roomy and exactly full). distinct_nontrivial = (instruction, outcome kind) pairs reached".into(),
         Mode::C02 => "same exploration as C01 with a reference-free oracle: whenever perform returns Err(e), e.state() == the state before (full PushState equality); plus run_to_completion([i] ++ Q) == run_to_completion(Q) for every recoverably failing (state, i) of a family and every continuation Q. distinct_nontrivial = (instruction, outcome kind) pairs reached".into(),
     };
     run.assumptions = vec![
